@@ -222,6 +222,22 @@ def compare_feature_forms(ctx: Ctx, f: str, cfg, paths, T: int, H: int, dtype):
     full = feat.get(None)
     deriv2, _, _ = build_market(cfg, paths, K, DT, dtype)
     feat2 = feat.of(deriv2)
+    # ... and once more through ONE FeatureList object bound first to another market of the same size (a container that
+    # remembers values of an earlier simulation must not leak them into the single-step form)
+    from pfhedge.features import FeatureList
+    fl = FeatureList([make_feature(f, H, dtype)])
+    other = [dict(p, spot=list(reversed(p["spot"])), var=list(reversed(p["var"]))) for p in paths]
+    d_other, _, _ = build_market(cfg, other, K, DT, dtype)
+    bound0 = fl.of(d_other)
+    bound0.get(None); bound0.get(0)
+    d_now, _, _ = build_market(cfg, paths, K, DT, dtype)
+    bound = fl.of(d_now)
+    full_c = bound.get(None)
+    for i in range(T):
+        ctx.count(n=1)
+        if not bool(((bound.get(i) - full_c[:, [i]]).abs() <= (time_tol(T, dtype) * (4 if f == "module_a" else 1) if f in ("time_to_maturity", "expiry_time", "module_a") else 0.0)).all()):
+            return (f"feature:{f}:container-step-vs-all", f"FeatureList([{f}]).get({i}) differs from column {i} of get(None) after the container was used on an earlier simulation of the same size",
+                    {"T": T, "step": i})
     for i in range(T):
         one = feat2.get(i)
         ctx.count(n=1)
